@@ -45,6 +45,7 @@ impl Prop for C01 {
                 cfg_mode: if thorough { CfgMode::Dev2 } else { CfgMode::Dev1Relevant },
                 cfg_ctx_limit: if thorough { 3 } else { 1 },
                 l1: false,
+                dev_editions: if thorough { vec![] } else { vec![2024] },
             },
             None,
         );
